@@ -196,4 +196,47 @@ theorem headTid_mem {l : List Txn} (h : 0 < headTid l) : ∃ T ∈ l, T.tid = he
   | nil => simp [headTid] at h
   | cons t r => exact ⟨t, by simp, rfl⟩
 
+/-! ### the finish section -/
+
+theorem finishing_some {s : Sys} {f : Infl} :
+    finishing s = some f ↔ s.infl = some f ∧ f.phase = .finishing := by
+  unfold finishing
+  cases hi : s.infl with
+  | none => simp
+  | some f0 =>
+    by_cases hp : f0.phase = .finishing
+    · simp only [hp, if_true, Option.some.injEq]
+      constructor
+      · intro h; subst h; exact ⟨rfl, hp⟩
+      · intro h; exact h.1
+    · simp only [hp, if_false, Option.some.injEq]
+      constructor
+      · intro h; cases h
+      · intro h; rw [h.1] at hp; exact absurd h.2 hp
+
+theorem finishing_none {s : Sys} :
+    finishing s = none ↔ ∀ f, s.infl = some f → f.phase ≠ .finishing := by
+  constructor
+  · intro h f hf hp
+    have := (finishing_some (s := s) (f := f)).mpr ⟨hf, hp⟩
+    rw [h] at this; cases this
+  · intro h
+    cases hfin : finishing s with
+    | none => rfl
+    | some f => have := finishing_some.mp hfin; exact absurd this.2 (h f this.1)
+
+theorem vlog_cases (s : Sys) :
+    (∃ f, s.infl = some f ∧ f.phase = .finishing ∧ vlog s = f.txn :: s.log) ∨
+    ((∀ f, s.infl = some f → f.phase ≠ .finishing) ∧ vlog s = s.log) := by
+  unfold vlog
+  cases hfin : finishing s with
+  | none => exact Or.inr ⟨finishing_none.mp hfin, rfl⟩
+  | some f => have := finishing_some.mp hfin; exact Or.inl ⟨f, this.1, this.2, rfl⟩
+
+theorem isFinishing_false {s : Sys} :
+    isFinishing s = false ↔ ∀ f, s.infl = some f → f.phase ≠ .finishing := by
+  unfold isFinishing
+  rw [← finishing_none]
+  cases finishing s <;> simp
+
 end Proofs.Mvcc
